@@ -50,7 +50,7 @@ theorem isDone_of_settled {s : NS} (h : Settled s) : s.isDone = true := by
 
 theorem isDone_of_unrunnable {w : World} {s : NS} (hl : LInv w s) (h : s.unrunnable = true) :
     s.isDone = true := by
-  obtain ⟨hq, hr, _, _⟩ := hl.unrun h
+  obtain ⟨hq, hr, _, _, _⟩ := hl.unrun h
   rw [isDone_iff]
   refine ⟨by simp [NS.started, h], hq, ?_, hr⟩
   cases hb : s.blk with
@@ -196,6 +196,7 @@ theorem nodeRunnable_spec {wf : Wf} {w : World} {ns : NSMap} {n : NodeId} (h : N
         · rw [setN_get_ne _ _ hpn]
           simp only [Bool.or_eq_true, Bool.not_eq_true', List.isEmpty_eq_false_iff] at hpc
           exact hpc
+      · intro _ hu; exact absurd hu (by simp)
     · intro m hm; exact setN_get_ne _ _ hm
     · rw [setN_get_same]
     · intro hs; rw [hns] at hs; exact absurd hs (by simp)
@@ -239,6 +240,13 @@ theorem nodeRunnable_spec {wf : Wf} {w : World} {ns : NSMap} {n : NodeId} (h : N
             simp only [Bool.or_eq_false_iff, Bool.not_eq_false', List.isEmpty_iff] at hpc
             exact settled_of_done (h.loc p) (hall' p hp) hpc.1 hpc.2
           · intro hu; simp [startedState] at hu
+          · intro _ _
+            show wf.mkJobs n (inputsOf wf ns n) = _
+            congr 1
+            unfold inputsOf
+            apply List.map_congr_left
+            intro p hp
+            rw [setN_get_ne _ _ (hpn p hp)]
         · intro m hm; exact setN_get_ne _ _ hm
         · rw [setN_get_same]
         · intro hs; rw [hst] at hs; exact absurd hs (by simp)
@@ -263,15 +271,65 @@ theorem nodeRunnable_spec {wf : Wf} {w : World} {ns : NSMap} {n : NodeId} (h : N
       rw [hl.unstarted hbn] at hne
       exact absurd rfl hne
 
+/-! ### started nodes keep their job lists -/
+
+/-- a node that has been started keeps `blocked is not None`, its unrunnable mark and its jobs -/
+def Grow (a b : NSMap) : Prop :=
+  ∀ n, (a.get n).blk ≠ none → (b.get n).blk ≠ none ∧ (b.get n).unrunnable = (a.get n).unrunnable ∧
+    (b.get n).cks = (a.get n).cks
+
+theorem Grow.refl (a : NSMap) : Grow a a := fun _ h => ⟨h, rfl, rfl⟩
+
+theorem Grow.trans {a b c : NSMap} (h1 : Grow a b) (h2 : Grow b c) : Grow a c := by
+  intro n h
+  obtain ⟨x1, x2, x3⟩ := h1 n h
+  obtain ⟨y1, y2, y3⟩ := h2 n x1
+  exact ⟨y1, y2.trans x2, y3.trans x3⟩
+
+theorem grow_upd (w : World) (ns : NSMap) (n : NodeId) : Grow ns (upd w ns n) := by
+  intro m h
+  by_cases hm : m = n
+  · subst hm
+    rw [upd_get_same]
+    obtain ⟨f1, f2, f3⟩ := updateStatus_frame w (ns.get m)
+    exact ⟨by rw [f2]; exact h, f3, f1⟩
+  · rw [upd_get_ne _ _ hm]; exact ⟨h, rfl, rfl⟩
+
+theorem grow_allDone (w : World) : ∀ (ps : List NodeId) (ns : NSMap), Grow ns (allDone w ns ps).2
+  | [], ns => Grow.refl ns
+  | p :: ps, ns => by
+    show Grow ns (if (nodeDone w ns p).1 = true then allDone w (nodeDone w ns p).2 ps
+      else (false, (nodeDone w ns p).2)).2
+    by_cases hd : (nodeDone w ns p).1 = true
+    · rw [if_pos hd]; exact (grow_upd w ns p).trans (grow_allDone w ps _)
+    · rw [if_neg hd]; exact grow_upd w ns p
+
+theorem grow_anyNotDone (w : World) : ∀ (l : List NodeId) (ns : NSMap), Grow ns (anyNotDone w ns l).2
+  | [], ns => Grow.refl ns
+  | n :: l, ns => by
+    show Grow ns (if (nodeDone w ns n).1 = true then anyNotDone w (nodeDone w ns n).2 l
+      else (true, (nodeDone w ns n).2)).2
+    by_cases hd : (nodeDone w ns n).1 = true
+    · rw [if_pos hd]; exact (grow_upd w ns n).trans (grow_anyNotDone w l _)
+    · rw [if_neg hd]; exact grow_upd w ns n
+
+theorem grow_of_spec {wf : Wf} {w : World} {ns : NSMap} {n : NodeId} {r : NSMap × List Nat}
+    (spec : RunnableSpec wf w ns n r) : Grow ns r.1 := by
+  intro m h
+  by_cases hm : m = n
+  · subst hm; rw [spec.fix (started_of_blk h)]; exact ⟨h, rfl, rfl⟩
+  · rw [spec.frame m hm]; exact ⟨h, rfl, rfl⟩
+
 /-! ### the scan of `sorted_nodes` -/
 
 /-- a task handed to the dispatcher belongs to a node that was legitimately started -/
 def TaskOK (ns : NSMap) (j : Job) : Prop :=
   (ns.get j.1).blk ≠ none ∧ (ns.get j.1).unrunnable = false ∧ j.2 ∈ (ns.get j.1).queued
 
-structure ScanSt (wf : Wf) (w : World) (pre : List NodeId) (ns : NSMap) (nst : List NodeId)
+structure ScanSt (wf : Wf) (w : World) (ns0 : NSMap) (pre : List NodeId) (ns : NSMap) (nst : List NodeId)
     (tasks : List Job) : Prop where
   inv : NInv wf w ns
+  grow : Grow ns0 ns
   upToDate : ∀ p, p ∈ pre → p ∈ nst ∨ Fix w (ns.get p)
   tasksOk : ∀ j, j ∈ tasks → j.1 ∈ pre ∧ TaskOK ns j
 
@@ -289,16 +347,16 @@ theorem scan_cons (wf : Wf) (w : World) (n : NodeId) (rest : List NodeId) (ns : 
         (if ((nodeDone w ns n).2.get n).started = true then nst else n :: nst)
         (tasks ++ (nodeRunnable wf w (nodeDone w ns n).2 n).2.map (fun i => (n, i))) := rfl
 
-theorem scan_spec {wf : Wf} {w : World} {sorted : List NodeId} (ht : TopoOrder wf sorted) :
+theorem scan_spec {wf : Wf} {w : World} {sorted : List NodeId} (ht : TopoOrder wf sorted) (ns0 : NSMap) :
     ∀ (rest pre : List NodeId) (ns : NSMap) (nst : List NodeId) (tasks : List Job),
-      sorted = pre ++ rest → ScanSt wf w pre ns nst tasks →
-      NInv wf w (scan wf w rest ns nst tasks).1 ∧
+      sorted = pre ++ rest → ScanSt wf w ns0 pre ns nst tasks →
+      NInv wf w (scan wf w rest ns nst tasks).1 ∧ Grow ns0 (scan wf w rest ns nst tasks).1 ∧
       ∀ j, j ∈ (scan wf w rest ns nst tasks).2 → TaskOK (scan wf w rest ns nst tasks).1 j := by
   intro rest
   induction rest with
   | nil =>
     intro pre ns nst tasks _ hs
-    exact ⟨hs.inv, fun j hj => (hs.tasksOk j hj).2⟩
+    exact ⟨hs.inv, hs.grow, fun j hj => (hs.tasksOk j hj).2⟩
   | cons n rest ih =>
     intro pre ns nst tasks hsorted hs
     have hnpre : n ∉ pre := by
@@ -328,7 +386,7 @@ theorem scan_spec {wf : Wf} {w : World} {sorted : List NodeId} (ht : TopoOrder w
     by_cases hd : ((upd w ns n).get n).isDone = true
     · rw [if_pos hd]
       apply ih (pre ++ [n]) _ _ _ hsorted'
-      refine ⟨hinv1, ?_, ?_⟩
+      refine ⟨hinv1, hs.grow.trans (grow_upd w ns n), ?_, ?_⟩
       · intro p hp
         rcases List.mem_append.mp hp with hp | hp
         · exact hup1 p hp
@@ -339,7 +397,7 @@ theorem scan_spec {wf : Wf} {w : World} {sorted : List NodeId} (ht : TopoOrder w
     · rw [if_neg hd]
       by_cases hbrk : (wf.preds n).any (fun p => nst.contains p) = true
       · rw [if_pos hbrk]
-        exact ⟨hinv1, fun j hj => (htk1 j hj).2⟩
+        exact ⟨hinv1, hs.grow.trans (grow_upd w ns n), fun j hj => (htk1 j hj).2⟩
       · rw [if_neg hbrk]
         have hfixp : ∀ p, p ∈ wf.preds n → Fix w ((upd w ns n).get p) := by
           intro p hp
@@ -353,7 +411,7 @@ theorem scan_spec {wf : Wf} {w : World} {sorted : List NodeId} (ht : TopoOrder w
           · exact absurd hx hd
         have spec := nodeRunnable_spec hinv1 hd' hfixp
         apply ih (pre ++ [n]) _ _ _ hsorted'
-        refine ⟨spec.inv, ?_, ?_⟩
+        refine ⟨spec.inv, (hs.grow.trans (grow_upd w ns n)).trans (grow_of_spec spec), ?_, ?_⟩
         · intro p hp0
           rcases List.mem_append.mp hp0 with hp | hp
           · have hpn : p ≠ n := by intro e; rw [e] at hp; exact hnpre hp
@@ -390,11 +448,11 @@ theorem mem_truncate {k : Option Nat} {tasks : List Job} {j : Job} (h : j ∈ tr
 /-- `Submitter.get_runnable_tasks` keeps the invariant and returns only legitimate tasks -/
 theorem poll_spec {wf : Wf} {w : World} {sorted : List NodeId} (ht : TopoOrder wf sorted) (k : Option Nat)
     {ns : NSMap} (h : NInv wf w ns) :
-    NInv wf w (poll wf k sorted w ns).1 ∧
+    NInv wf w (poll wf k sorted w ns).1 ∧ Grow ns (poll wf k sorted w ns).1 ∧
     ∀ j, j ∈ (poll wf k sorted w ns).2 → TaskOK (poll wf k sorted w ns).1 j := by
-  obtain ⟨a, b⟩ := scan_spec ht sorted [] ns [] [] (by simp)
-    ⟨h, fun p hp => absurd hp (by simp), fun j hj => absurd hj (by simp)⟩
-  exact ⟨a, fun j hj => b j (mem_truncate hj)⟩
+  obtain ⟨a, g, b⟩ := scan_spec ht ns sorted [] ns [] [] (by simp)
+    ⟨h, Grow.refl ns, fun p hp => absurd hp (by simp), fun j hj => absurd hj (by simp)⟩
+  exact ⟨a, g, fun j hj => b j (mem_truncate hj)⟩
 
 /-- from the theorems about `DiGraph.sorting`: the list it returns is such an order -/
 theorem topoOrder_of_sortFrom {wf : Wf} {sorted : List NodeId} (hw : wf.g.wip = [])
